@@ -131,6 +131,34 @@ def deductive(res, agg):
             got = "ValueError"
         agg.vc(fn, "no or ambiguous latitude dimension is refused", struct_vc(got == "ValueError", repr(got)), what)
 
+    # ---- the DataArray / Dataset wrapper hands the latitude coordinate to that kernel and returns its weights untouched
+    fn = "compute_sqrt_cos_lat_weights"
+
+    class Wt:
+        def __init__(self, of):
+            self.of, self.name = of, None
+
+    class FakeDA:
+        def __init__(self, lat_dim):
+            self.coords = {lat_dim: ("coord", lat_dim), "lon": ("coord", "lon")}
+
+        @property
+        def __class__(self):
+            return xr.DataArray
+    old_k = xumod.sqrt_cos_lat_weights
+    xumod.sqrt_cos_lat_weights = lambda lat: Wt(lat)
+    try:
+        for nm in ("lat", "Latitude"):
+            try:
+                w = xumod.compute_sqrt_cos_lat_weights(FakeDA(nm), (nm, "lon"))
+                ok = isinstance(w, Wt) and w.of == ("coord", nm)      # (the array's name matters to serialisation, C13, not here)
+                det = repr(getattr(w, "of", w))
+            except Exception as e:  # noqa: BLE001
+                ok, det = False, f"{type(e).__name__}: {e}"
+            agg.vc(fn, "returns exactly the kernel's weights of the latitude coordinate (no later adjustment)", struct_vc(ok, det), nm)
+    finally:
+        xumod.sqrt_cos_lat_weights = old_k
+
     # ---- routing of options and weights (opaque tokens stand for every value)
     deductive_routing(res, agg)
 
@@ -259,6 +287,12 @@ def eval_case(c):
     nn, nlat, nlon = 30, 3, 4
     X = rng.standard_normal((nn, nlat * nlon)) * np.linspace(2, 0.5, nlat * nlon) + np.sin(np.arange(nn) / 3.0)[:, None] * np.linspace(-1, 1, nlat * nlon)
     da = real.da3(X, nlat)
+    if c.get("grid") == "poles":
+        da = da.assign_coords(lat=np.linspace(-90.0, 90.0, nlat))          # both poles exactly
+    elif c.get("grid") == "north-pole":
+        da = da.assign_coords(lat=np.array([-30.0, 45.0, 90.0]))
+    if c.get("dtype"):
+        da = (da * 20).round().astype(c["dtype"])                         # integer-typed input (counts, packed variables)
     latname = c.get("latname", "lat")
     if latname != "lat":
         da = da.rename(lat=latname)
@@ -367,6 +401,13 @@ def bounded_cases(tier, seed):
             cases.append(dict(model=model, relation="coslat", latname=ln, decades=0, keep=model != "EOF"))
         for f in (-3.0, 1e-6, 1e6, 0.5):
             cases.append(dict(model=model, relation="global-factor", factor=f, decades=0))
+    for model in ("EOF", "MCA"):
+        for grid in ("poles", "north-pole"):
+            cases.append(dict(model=model, relation="coslat", latname="lat", decades=0, grid=grid, keep=True))
+        for dt in ("int64", "int32"):
+            cases.append(dict(model=model, relation="shift", decades=0, dtype=dt, keep=model == "EOF"))
+            cases.append(dict(model=model, relation="weights", container="da", decades=0, dtype=dt, keep=model == "EOF" and dt == "int32"))
+            cases.append(dict(model=model, relation="global-factor", factor=0.5, decades=0, dtype=dt))
     for i, c in enumerate(cases):
         c["seed"] = int(seed) * 1000 + i
     if tier == "quick":
@@ -376,7 +417,7 @@ def bounded_cases(tier, seed):
 
 def run_bounded(res, tier, seed):
     for c in bounded_cases(tier, seed):
-        sig = {k: c.get(k) for k in ("model", "relation", "decades", "container", "latname", "factor")}
+        sig = {k: c.get(k) for k in ("model", "relation", "decades", "container", "latname", "factor", "grid", "dtype")}
         try:
             ok, detail = eval_case(c)
         except Exception as e:  # noqa: BLE001
@@ -392,17 +433,19 @@ def replay(payload):
 
 def run(tier, seed):
     res = Result("C08")
-    res.functions = ["xeofs.preprocessing.scaler:Scaler.fit/transform (inside the real chain)", "xeofs.utils.xarray_utils:_np_sqrt_cos_lat_weights",
+    res.functions = ["xeofs.cross.base_model_cross_set:BaseModelCrossSet public methods (composition of preprocessor/PCA/whitener per field)", "xeofs.preprocessing.scaler:Scaler.fit/transform (inside the real chain)", "xeofs.utils.xarray_utils:_np_sqrt_cos_lat_weights", "xeofs.utils.xarray_utils:compute_sqrt_cos_lat_weights (DataArray branch)",
                      "xeofs.utils.xarray_utils:extract_latitude_dimension", "xeofs.single.base_model_single_set:BaseModelSingleSet.__init__/fit",
                      "xeofs.cross.base_model_cross_set:BaseModelCrossSet.__init__/fit", "xeofs.cross.cpcca:CPCCA.__init__"]
     res.assumptions = ["mean over samples is linear, std over samples is positively homogeneous and shift invariant (properties of xarray's mean/std, taken as axioms of the corollaries)",
                        "every feature's standard deviation stays above the clipping floor (the property's own precondition): clip(std, eps) = std",
-                       "latitudes strictly inside (-90, 90) for the weight equivalence (at |lat| = 90 the weight is 0 mathematically and 7.8e-9 in floats)",
+                       "the weight equivalence is evaluated numerically on grids that include both poles exactly (weight 0 mathematically, 7.8e-9 in floats)",
                        "SVD homogeneity (scores c, singular values |c|, variance c^2) under a global factor: mathematics of the SVD, exercised by the bounded runs",
                        "option routing is checked with opaque tokens on the real constructors / fit (the inner Preprocessor class is replaced by a recorder)"]
     res.trusted = ["CPython on proxies", "vf/sym/ldom.py", "z3 (NRA)"]
     agg = Agg(res, "C08")
     deductive(res, agg)
+    from vf.contracts import crosschain
+    crosschain.obligations(agg, ("fit",))      # cross-set public methods: every field through its own chain, in order
     agg.flush()
     run_bounded(res, tier, seed)
     return res
